@@ -1,5 +1,6 @@
 import PMV.Driver.Util
 import PMV.Model.Resolve
+import PMV.Model.Taint
 namespace PMV.Driver.Resolve
 open PMV PMV.Driver PMV.Resolve
 
@@ -28,6 +29,17 @@ def get (args : List Sexp) : Option String := do
     pure (" ".intercalate (qs.map fun (x, n) => match getBinding t x (t.length + 2) n with
       | some h => toString h
       | none => "-"))
+  | _ => none
+
+/-- `taint.names (<namespace>…) ((<name> <ns>)…)` → `1` when some lookup of a trigger name reaches the module unresolved, else `0` -/
+def taintNames (args : List Sexp) : Option String := do
+  match args with
+  | [t, qs] =>
+    let t ← (← list? t).mapM ns?
+    let qs ← (← list? qs).mapM fun q => match q with
+      | .list [x, n] => do pure (← str? x, ← nat? n)
+      | _ => none
+    pure (if Taint.taintedByNames t (t.length + 2) qs then "1" else "0")
   | _ => none
 
 end PMV.Driver.Resolve
